@@ -228,6 +228,7 @@ structure LoopFacts (cfg : Cfg) (n : Nat) (x l : Loop) (new : List Nat) : Prop w
   parked : ∀ a ∈ new, (phaseOf x.reqs a).isParked = true
   nodup : new.Nodup
   heapSub : ∀ b ∈ l.heap, b ∈ x.heap
+  relSub : ∀ a ∈ new, a ∈ x.heap
   keep : ∀ b ∈ x.heap, (phaseOf x.reqs b).isParked = true → b ∉ new → b ∈ l.heap
   order : ∀ a ∈ new, ∀ b ∈ l.heap, keyLt (getReq x.reqs b) (getReq x.reqs a) = false
   phase : ∀ b, phaseOf l.reqs b = if b ∈ new then .wokeDone else phaseOf x.reqs b
@@ -243,6 +244,7 @@ theorem loopFacts_refl (cfg : Cfg) (n : Nat) (x : Loop)
   parked := by simp
   nodup := by simp
   heapSub := fun _ h => h
+  relSub := by simp
   keep := fun _ h _ _ => h
   order := by simp
   phase := by simp
@@ -297,6 +299,14 @@ theorem rollLoop_facts (cfg : Cfg) (n : Nat) (x : Loop) :
             simp only at this
             rw [hheap] at this
             exact List.mem_of_mem_erase this
+          · intro a ha
+            simp only [List.mem_cons] at ha
+            rcases ha with ha | ha
+            · subst ha; exact hmem
+            · have := f.relSub a ha
+              simp only at this
+              rw [hheap] at this
+              exact List.mem_of_mem_erase this
           · intro b hb hbp hbn
             simp only [List.mem_cons, not_or] at hbn
             apply f.keep b
@@ -341,6 +351,11 @@ theorem rollLoop_facts (cfg : Cfg) (n : Nat) (x : Loop) :
           · exact f.nodup
           · intro b hb
             have := f.heapSub b hb
+            simp only at this
+            rw [hheap] at this
+            exact List.mem_of_mem_erase this
+          · intro a ha
+            have := f.relSub a ha
             simp only at this
             rw [hheap] at this
             exact List.mem_of_mem_erase this
